@@ -52,7 +52,13 @@ func NewURLKeyer() URLKeyer { return URLKeyerFunc(makeURLKey) }
 //   - RFC 7230 §2.7.3: https://datatracker.ietf.org/doc/html/rfc7230#section-2.7.3
 func makeURLKey(u *url.URL) string {
 	if u.Opaque != "" {
-		return u.Opaque
+		// An http(s) URL may spell its request target in Opaque (net/http sends it as it
+		// is); the key is that of the URI it stands for, not the bare Opaque text - which
+		// would be shared by every scheme and host.
+		u = SpellOutOpaque(u)
+		if u.Opaque != "" {
+			return u.Opaque
+		}
 	}
 	// RFC 3986 §6.2.2.3: Path normalization (dot-segment removal) is done by
 	// removeDotSegments below. [url.URL.ResolveReference] is only used for the
@@ -79,23 +85,44 @@ func makeURLKey(u *url.URL) string {
 
 	// RFC 3986 §6.2.3: An empty path for http/https is normalized to "/".
 	// Also see https://datatracker.ietf.org/doc/html/rfc7230#section-2.7.3
-	path := removeDotSegments(u.EscapedPath())
+	// RFC 3986 §6.2.2.2: Normalize percent-encoding in path - before the dot segments
+	// are removed, so that "%2E" and "%2e%2E" are recognised as the dot segments they are.
+	path := removeDotSegments(normalizePercentEncoding(u.EscapedPath()))
 	if path == "" && (scheme == "http" || scheme == "https") {
 		path = "/"
 	}
-
-	// RFC 3986 §6.2.2.2: Normalize percent-encoding in path.
-	path = normalizePercentEncoding(path)
 	result := scheme + "://" + hostPort + path
 
-	// RFC 3986 §6.2.2.2: Normalize percent-encoding in query, if present.
-	if normalized.RawQuery != "" {
+	// RFC 3986 §6.2.2.2: Normalize percent-encoding in query, if present (an empty
+	// query, "/x?", is a query all the same: RFC 3986 §6.2.3).
+	if normalized.RawQuery != "" || u.ForceQuery {
 		result += "?" + normalizePercentEncoding(normalized.RawQuery)
 	}
 
 	// RFC 3986 §6.1 Equivalence: "fragment components (if any) should be excluded from
 	// the comparison"
 	return result
+}
+
+// SpellOutOpaque returns the URI an http(s) URL with a non-empty Opaque stands for: Opaque
+// is either "//authority/path" (the absolute form without its scheme) or the path. Any
+// other URL is returned as it is.
+func SpellOutOpaque(u *url.URL) *url.URL {
+	if u.Opaque == "" || (!strings.EqualFold(u.Scheme, "http") && !strings.EqualFold(u.Scheme, "https")) {
+		return u
+	}
+	raw := u.Scheme + ":" + u.Opaque
+	if !strings.HasPrefix(u.Opaque, "//") {
+		raw = u.Scheme + "://" + u.Host + u.Opaque
+	}
+	if u.ForceQuery || u.RawQuery != "" {
+		raw += "?" + u.RawQuery
+	}
+	v, err := url.Parse(raw)
+	if err != nil || v.Opaque != "" {
+		return u
+	}
+	return v
 }
 
 // removeDotSegments implements the remove_dot_segments algorithm of RFC 3986 §5.2.4
